@@ -36,7 +36,149 @@ def _swap_restore(fn, what, guarded):
     return t, handlers
 
 
+# values of the unchanged source for constants that cannot be extracted when the source lost its expected
+# shape: the Lean side still builds (against the model of the unchanged code), the tie is reported and the
+# correspondence / failing-input search runs.
+EXPECTED = [
+    ('lazyImportPathShape', 'String', '"hostOnly"'),
+    ('lazyImportModule', 'String', '"numpydoc.docscrape"'),
+]
+
+
 def generate(repo, g):
+    import os
+    from translator.extract import GEN_DIR, write_if_changed
+    defined = set()
+    orig_define = g.define
+
+    def define(name, typ, value, source):
+        defined.add(name)
+        orig_define(name, typ, value, source)
+    g.define = define
+    broken = []
+    try:
+        for part in (_generate, _generate_host):
+            try:
+                part(repo, g)
+            except TieBroken as e:
+                broken.append(e)
+        if broken:
+            for name, typ, value in EXPECTED:
+                if name not in defined:
+                    orig_define(name, typ, value,
+                                'FALLBACK (source shape not recognised): value of the unchanged code')
+            write_if_changed(os.path.join(GEN_DIR, g.pid + '.lean'), g.text())
+            raise broken[0]
+    finally:
+        g.define = orig_define
+
+
+def _writes_sys_path(n):
+    """does this node rebind or mutate `sys.path`?"""
+    def is_sp(t):
+        return u(t) == 'sys.path' or (isinstance(t, ast.Subscript) and u(t.value) == 'sys.path')
+    if isinstance(n, ast.Assign):
+        for t in n.targets:
+            if is_sp(t) or (isinstance(t, (ast.Tuple, ast.List)) and any(is_sp(e) for e in t.elts)):
+                return True
+    if isinstance(n, (ast.AugAssign, ast.AnnAssign)) and is_sp(n.target):
+        return True
+    if isinstance(n, ast.Delete) and any(is_sp(t) for t in n.targets):
+        return True
+    if isinstance(n, ast.Call) and isinstance(n.func, ast.Attribute) and u(n.func.value) == 'sys.path' \
+            and n.func.attr in ('insert', 'append', 'extend', 'pop', 'remove', 'clear', 'sort', 'reverse',
+                                '__setitem__', '__delitem__', '__iadd__'):
+        return True
+    return False
+
+
+def _qual_walk(tree):
+    """(enclosing def/class names, node) for every node"""
+    def rec(node, stack):
+        for ch in ast.iter_child_nodes(node):
+            st = stack + [ch.name] if isinstance(ch, (ast.FunctionDef, ast.AsyncFunctionDef, ast.ClassDef)) else stack
+            yield stack, ch
+            yield from rec(ch, st)
+    return rec(tree, [])
+
+
+def _generate_host(repo, g):
+    """the host side: jedi's own import statements of modules outside the standard library / jedi / parso
+    (optional dependencies, resolved in the process that runs jedi) and every write to sys.path."""
+    import os
+    import sys
+    std = set(sys.stdlib_module_names)
+    writes, foreign = set(), set()
+    for root, dirs, files in os.walk(os.path.join(repo, 'jedi')):
+        dirs[:] = [x for x in dirs if x not in ('third_party', '__pycache__')]
+        for f in files:
+            if not f.endswith('.py'):
+                continue
+            rel = os.path.relpath(os.path.join(root, f), repo)
+            try:
+                with open(os.path.join(root, f), encoding='utf-8') as fh:
+                    tree = ast.parse(fh.read())
+            except (OSError, SyntaxError):
+                continue
+            for stack, n in _qual_walk(tree):
+                where = '%s:%s' % (rel, '.'.join(stack) or '<module>')
+                if _writes_sys_path(n):
+                    writes.add(where)
+                names = []
+                if isinstance(n, ast.Import):
+                    names = [a.name for a in n.names]
+                elif isinstance(n, ast.ImportFrom) and n.level == 0 and n.module:
+                    names = [n.module]
+                for nm in names:
+                    if nm.split('.')[0] not in std and nm.split('.')[0] not in ('jedi', 'parso'):
+                        foreign.add('%s:%s' % (where, nm))
+    g.define('sysPathWriteSites', 'List String', lean_list(sorted(writes)),
+             'every statement in jedi/*.py that rebinds or mutates sys.path (file:enclosing definition)')
+    g.define('foreignImportSites', 'List String', lean_list(sorted(foreign)),
+             'every import statement in jedi/*.py of a module outside the standard library, jedi and parso')
+
+    doc = Src(repo, 'jedi/inference/docstrings.py')
+    fn = doc.find('_get_numpy_doc_string_cls')
+    imps = [n for n in ast.walk(fn) if isinstance(n, (ast.Import, ast.ImportFrom))]
+    mods = sorted({(n.module if isinstance(n, ast.ImportFrom) else n.names[0].name) for n in imps})
+    if len(mods) != 1 or any(isinstance(n, ast.ImportFrom) and n.level for n in imps):
+        raise TieBroken('_get_numpy_doc_string_cls: not exactly one imported module', repr(mods))
+    g.define('lazyImportModule', 'String', '"%s"' % mods[0],
+             'jedi/inference/docstrings.py:_get_numpy_doc_string_cls (the module its import statement names)')
+    dyn = [u(n.func) for n in ast.walk(fn) if isinstance(n, ast.Call) and u(n.func) in
+           ('__import__', 'importlib.import_module', 'import_module', 'exec', 'eval')]
+    if dyn:
+        raise TieBroken('_get_numpy_doc_string_cls: dynamic import', repr(dyn))
+    w = [n for n in ast.walk(fn) if _writes_sys_path(n)]
+    if not w:
+        shape = 'hostOnly'
+    else:
+        # recognised: temp = sys.path; sys.path = temp + <extra>; try: import  finally: sys.path = temp
+        body = [s_ for s_ in fn.body]
+        src = [u(s_) for s_ in body]
+        shape = None
+        if 'temp = sys.path' in src:
+            i = src.index('temp = sys.path')
+            nxt = body[i + 1] if i + 1 < len(body) else None
+            tr = body[i + 2] if i + 2 < len(body) else None
+            if isinstance(nxt, ast.Assign) and u(nxt.targets[0]) == 'sys.path' and isinstance(nxt.value, ast.BinOp) \
+                    and isinstance(nxt.value.op, ast.Add) and isinstance(tr, ast.Try) \
+                    and [u(x) for x in tr.finalbody] == ['sys.path = temp'] \
+                    and all(isinstance(x, (ast.Import, ast.ImportFrom)) for x in tr.body) and len(w) == 2:
+                if u(nxt.value.left) == 'temp':
+                    shape = 'hostThenExtra'
+                elif u(nxt.value.right) == 'temp':
+                    shape = 'extraThenHost'
+        if shape is None:
+            raise TieBroken('_get_numpy_doc_string_cls writes sys.path in an unknown way', repr([u(x) for x in w]))
+    g.define('lazyImportPathShape', 'String', '"%s"' % shape,
+             'jedi/inference/docstrings.py:_get_numpy_doc_string_cls (writes to sys.path around its import statement)')
+    g.fp(doc, '_get_numpy_doc_string_cls')
+    g.fp(doc, '_search_param_in_numpydocstr')
+    g.fp(doc, '_search_return_in_numpydocstr')
+
+
+def _generate(repo, g):
     settings = Src(repo, 'jedi/settings.py')
     imports = Src(repo, 'jedi/inference/imports.py')
     access = Src(repo, 'jedi/inference/compiled/access.py')
